@@ -22,7 +22,7 @@ def gen_irset(rnd, density=None, toggle=None, sep=None):
 
     def add(key):
         if rnd.random() < density:
-            n = rnd.choice([1, 3, 10, 60, 120, 250, 600])
+            n = rnd.choice([1, 3, 10, 60, 120, 250, 600, 940, 1500, 1985])
             waves.append({"Key": key, "Para": "".join(rnd.choice("0123456789ABCDEF,") for _ in range(rnd.randrange(1, 12))),
                           "HexCode": "".join(rnd.choice("0123456789ABCDEF") for _ in range(n))})
     for p in prefixes:
